@@ -431,5 +431,11 @@ class ConcreteReplicate(Target):
         return []
 
 
-TARGETS = [ApplyReplicate(), CompileReplica(), CompileAggregate(), GraphEdges(), ConcreteReplicate()]
+# replication rewrites references with the parser and the printer of C09 (executed natively inside the targets above): their
+# contracts are part of this check too
+from pyvc.spec import shared as _shared
+import contracts.C09 as _c09
+REFERENCE_PARSING = [_shared(_c09.CompileReference(), 'C03'), _shared(_c09.ParsePrint(), 'C03')]
+
+TARGETS = [ApplyReplicate(), CompileReplica(), CompileAggregate(), GraphEdges(), ConcreteReplicate()] + REFERENCE_PARSING
 LEMMAS = []
